@@ -995,6 +995,7 @@ class ModelBuilder:
     """Build the Project model from the parsed data."""
 
     def __init__(self) -> None:
+        self._explicit_scenario_attrs: set[tuple[int, str, int]] = set()  # (object, attribute, scenario) given as 'id:attr'
         self._pending_depends: list[tuple[Task, list[Any]]] = []  # Store (task, depends_list) for later resolution
         self._pending_precedes: list[tuple[Task, list[Any]]] = []  # Store (task, precedes_list) for later resolution
 
@@ -1454,6 +1455,18 @@ class ModelBuilder:
                     if scenario_idx is not None and attr_data and isinstance(attr_data, tuple):
                         attr_key, attr_value = attr_data
                         obj[(attr_key, scenario_idx)] = attr_value
+                        # A nested scenario starts from its parent scenario: the override also holds
+                        # for every scenario below this one that has no override of its own
+                        explicit = self._explicit_scenario_attrs
+                        explicit.add((id(obj), attr_key, scenario_idx))
+                        all_scenarios = list(obj.project.scenarios)
+                        pending_scenarios = list(all_scenarios[scenario_idx].children)
+                        while pending_scenarios:
+                            nested = pending_scenarios.pop()
+                            nested_idx = all_scenarios.index(nested)
+                            if (id(obj), attr_key, nested_idx) not in explicit:
+                                obj[(attr_key, nested_idx)] = attr_value
+                                pending_scenarios.extend(nested.children)
                 elif key == "journalentry":
                     # Create a journal entry for this task
                     self._create_journal_entry(obj, value)  # type: ignore[arg-type]
